@@ -18,7 +18,9 @@ RULE = ('messages = neutral text + one or several renderings (12 pattern familie
         'keys inside keys, random pattern-alphabet soup), the same key repeated 2..40 times in one message (same '
         'and mixed renderings, distinct secrets), in-process call sequences (the same message with different masks '
         'in both orders, a result fed to the next call with another mask, values already equal to a mask, repeats, '
-        'interleaved messages), single-pattern re.sub requests and non-str messages. '
+        'interleaved messages), message objects whose __str__/__repr__ re-enter mask_password / '
+        'mask_dict_password with another mask while they are rendered, single-pattern re.sub requests and non-str '
+        'messages. '
         'Non-trivial: the implementation changed the message (at least one substitution fired); distinct by '
         '(message, mask)')
 TRUSTED_BASE = [
@@ -541,33 +543,108 @@ def gen_call_sequence(rng):
     return {'kind': 'callseq', 'family': fam, 'steps': [with_values(base, src, m) for src, m in plan]}
 
 
-def fresh_oracle(case, timeout=60):
-    """The oracle's verdict on a stored case in a FRESH interpreter (nothing remembered from this run);
-    'unknown' if that could not be run."""
+FRESH_BUDGET = [60.0]          # seconds of fresh-interpreter work left in this run
+
+
+def fresh_oracle(case):
+    """The oracle's verdict on a stored case in a FRESH interpreter in the same ambient configuration (nothing
+    remembered from this run): why | None (passes there) | 'unknown' (could not be run / budget used up)."""
     import os
     import subprocess
-    import sys
-    code = ('import sys, json; sys.path.insert(0, %r); import common; from props import C04; '
-            'print(json.dumps(C04.oracle(json.load(sys.stdin))))' % os.path.dirname(os.path.dirname(__file__)))
+    import time
+    import ambient
+    if FRESH_BUDGET[0] <= 0:
+        return 'unknown'
+    code = ('import sys, json\nsys.path.insert(0, %r)\n' % os.path.dirname(os.path.dirname(__file__))
+            + ambient.setup_snippet('import common\nfrom props import C04')
+            + 'print(json.dumps(C04.oracle(json.load(sys.stdin))))\n')
+    t0 = time.time()
     try:
-        p = subprocess.run([sys.executable, '-c', code], input=json.dumps(case).encode(), stdout=subprocess.PIPE,
-                           stderr=subprocess.PIPE, timeout=timeout)
+        p = subprocess.run(ambient.fresh_interpreter_argv() + ['-c', code], input=json.dumps(case).encode(),
+                           stdout=subprocess.PIPE, stderr=subprocess.PIPE, timeout=max(5, min(60, FRESH_BUDGET[0])))
         return json.loads([l for l in p.stdout.decode().splitlines() if l.strip()][-1])
     except Exception:
         return 'unknown'
+    finally:
+        FRESH_BUDGET[0] -= time.time() - t0
 
 
 def shrink_callseq(case):
     """Fewest calls that still fail in a fresh interpreter; wall-clock bounded."""
-    import time
-    if not fresh_oracle(case):
+    first = fresh_oracle(case)
+    if first is None:
         return dict(case, note='fails only after the earlier calls of this run')
-    deadline = time.time() + 45
+    if first == 'unknown':
+        return case
 
     def still(sub):
-        return time.time() < deadline and bool(fresh_oracle(dict(case, steps=sub)))
+        r = fresh_oracle(dict(case, steps=sub))
+        return bool(r) and r != 'unknown'
     steps = common.shrink_list(case['steps'], still, max_steps=25)
     return dict(case, steps=steps)
+
+
+# ------------------------------------------------------------------ reentrancy through the message object
+
+class Reentrant:
+    """A caller-supplied message object whose __str__ / __repr__ / __format__ call back into the library with OTHER
+    arguments (a command object that writes a masked audit line, a record that renders a nested field with its own
+    marker) before giving its text.  mask_password renders its argument with str()."""
+
+    def __init__(self, text, inner_mask, source=None):
+        self.text, self.inner_mask, self.source = text, inner_mask, source
+
+    def _render(self):
+        st = strutils()
+        st.mask_password('password=abc <token>x</token> "secret": "y"', secret=self.inner_mask)
+        st.mask_dict_password({'password': 'x', 'n': {'u': 'token=abc'}}, secret=self.inner_mask)
+        if self.source is not None:                 # its text IS the source masked with the inner mask
+            return st.mask_password(self.source, secret=self.inner_mask)
+        return self.text
+
+    def __str__(self):
+        return self._render()
+
+    def __repr__(self):
+        return self._render()
+
+    def __format__(self, spec):
+        return format(self._render(), spec)
+
+
+def make_message(case):
+    """The message argument of a case: its text, or the re-entering object the case describes."""
+    r = case.get('reenter')
+    if not r:
+        return case['message']
+    if r['mode'] == 'side-call':
+        return Reentrant(case['message'], r['inner_mask'])
+    if r['mode'] == 'premask':
+        return Reentrant(None, r['inner_mask'], source=r['source'])
+    if r['mode'] == 'in-list':                      # str([obj]) renders obj with repr()
+        return [Reentrant(case['message'][1:-1], r['inner_mask'])]
+    raise ValueError(r['mode'])
+
+
+def gen_reentrant_case(rng):
+    """A rendering case whose message is an object that re-enters the library while it is being rendered; the text it
+    finally gives is the case's message, so the expected result is still by construction."""
+    outer, inner = rng.sample(SEQ_MASKS, 2)
+    base = gen_rendering_case(rng, strict=True, nparts=rng.choice([1, 1, 2]))
+    mode = rng.choice(['side-call', 'side-call', 'premask', 'in-list'])
+    while mode == 'in-list' and not base['post'] and base['parts'][-1]['rendering'] in BARE:
+        # str([obj]) puts ']' right after the text: a bare value at the very end would rightly take it in
+        base = gen_rendering_case(rng, strict=True, nparts=rng.choice([1, 1, 2]))
+    if mode == 'premask':
+        c = with_values(base, inner, outer)         # what the object renders to: every value already = inner mask
+        c['reenter'] = {'mode': mode, 'inner_mask': inner, 'source': base['message']}
+        return c
+    c = with_values(base, None, outer)
+    if mode == 'in-list':
+        c = dict(c, pre='[' + c['pre'], post=c['post'] + ']')
+        c = assemble(c)
+    c['reenter'] = {'mode': mode, 'inner_mask': inner}
+    return c
 
 
 # ------------------------------------------------------------------ implementation runners
@@ -702,14 +779,34 @@ def correspondence(ctx):
                 reported = True
                 out.append(Disagreement(dict(sq, steps=sq['steps'][:i + 1]), 'call %d: %r' % (i, show(impl)),
                                         'call %d: %r' % (i, show(rep))))
+    # reentrancy: the message is an object that calls back into the library while it is rendered
+    rcases = [gen_reentrant_case(ctx.rng) for _ in range(80 if ctx.quick else 2500)]
+    rimpl = [impl_mask(make_message(c), c['mask']) for c in rcases]
+    for c, impl, rep in zip(rcases, rimpl, ctx.driver.ask_many([req('mask', hexs(c['message']), hexs(c['mask']))
+                                                               for c in rcases])):
+        ctx.evaluations += 1
+        ctx.count('corr/reentrant/' + c['reenter']['mode'])
+        if impl != rep:
+            out.append(Disagreement(c, show(impl), show(rep)))
     # non-str messages: str() is applied by the code, and by the harness for the model
-    lines = [req('mask', hexs(str(m)), hexs('***')) for m in NON_STR]
-    for m, rep in zip(NON_STR, ctx.driver.ask_many(lines)):
+    texts = []
+    for m in NON_STR:
+        try:
+            texts.append(str(m))
+        except BytesWarning:
+            # python -bb: str() of a bytes object is an error by interpreter configuration -- for this harness and
+            # for mask_password alike (its first statement is str(message)); the model has no such input
+            texts.append(None)
+    replies = ctx.driver.ask_many([req('mask', hexs(t if t is not None else ''), hexs('***')) for t in texts])
+    for m, t, rep in zip(NON_STR, texts, replies):
         ctx.evaluations += 1
         ctx.count('corr/non-str')
         impl = impl_mask(m, '***')
+        if t is None:
+            rep = 'BytesWarning'
         if impl != rep:
-            out.append(Disagreement({'kind': 'corr', 'message': str(m), 'mask': '***', 'note': 'non-str ' + type(m).__name__},
+            out.append(Disagreement({'kind': 'corr', 'message': t if t is not None else repr(m), 'mask': '***',
+                                     'note': 'non-str ' + type(m).__name__},
                                     show(impl), show(rep)))
     # str.lower on the domain, character by character and on random strings
     dom = domain()
@@ -744,7 +841,7 @@ def oracle(case):
         return None
     msg, mask = case['message'], case.get('mask', '***')
     try:
-        got = mp(msg, mask)
+        got = mp(make_message(case), mask)
     except Exception as e:
         return 'raised: mask_password raised %s' % type(e).__name__
     if kind == 'render':
@@ -847,6 +944,10 @@ def search(ctx, seeds, full=False):
         check(gen_call_sequence(rng))
         if len(fails) >= 5:
             return fails + list(known.values())
+    for _ in range((1000 if full else 120) if ctx.quick else (10000 if full else 2000)):
+        check(gen_reentrant_case(rng))
+        if len(fails) >= 5:
+            return fails + list(known.values())
     n = (60000 if full else 4000) if ctx.quick else (400000 if full else 60000)
     keys = all_keys()
     # every key x form x rendering first (this is where a dropped key or an edited pattern shows)
@@ -878,6 +979,8 @@ def search(ctx, seeds, full=False):
 def minimise(case):
     if case['kind'] == 'callseq':
         return shrink_callseq(case)
+    if case.get('reenter'):
+        return case                     # message text and the object's source text belong together: kept as found
     if case['kind'] == 'nokey':
         return shrink_case(case)
     if case['kind'] != 'render' or 'parts' not in case:
@@ -1043,7 +1146,9 @@ def replay(ctx, payload):
         print('model         :', repr(show(ctx.driver.ask(req('sub', case['list'], case['index'], hexs(case['key']),
                                                                hexs(msg), hexs(mask))))))
     else:
-        print('implementation:', repr(show(impl_mask(msg, mask))))
+        if case.get('reenter'):
+            print('message object: re-enters the library while rendered:', case['reenter'])
+        print('implementation:', repr(show(impl_mask(make_message(case), mask))))
         print('model         :', repr(show(ctx.driver.ask(req('mask', hexs(msg), hexs(mask))))))
     why = oracle(case)
     print('property oracle on the implementation:', why)
